@@ -257,6 +257,18 @@ let handle kind a =
         let raw = bytes_of_hex a.(4) in
         let show o = match o with None -> "Err" | Some x -> rec_str x ^ "/" ^ span_str v45 x in
         Some (show (read_eager_text (prs_of tab) h raw) ^ "|" ^ show (read_lazy_text (prs_of tab) h raw))
+    | "lzb" ->
+        (* read_record until Ok(0) / Err through one lazy Record: bytes consumed, the accessor
+           texts (the slices of the buffer) and the record of the forced views *)
+        let h = hctx_of a.(0) a.(1) a.(2) a.(3) in
+        let tab = ftab a.(5) in
+        let raw = bytes_of_hex a.(4) in
+        let one x = match x with
+          | LPanic -> "Panic" | LErr -> "Err" | LEof -> "Eof"
+          | LRec (n, f, r, _) ->
+              string_of_int (int_of_nat n) ^ "|" ^ String.concat "," (List.map hex_of_bytes (lf_obs f))
+              ^ "|" ^ (match r with None -> "Err" | Some x -> rec_str x) in
+        Some (String.concat "^" (List.map one (lazy_records_std (prs_of tab) h raw)))
     | "hw" ->
         (match write_header (header_of a.(0)) with
          | None -> Some "WErr"
